@@ -37,9 +37,16 @@ func (f *freeCfg) decide(s *scenario, op string) answer {
 	x := f.intn(100)
 	switch op {
 	case "qbid":
-		if x < 35 {
-			return answer{r: "found"}
-		} else if x < 92 {
+		switch {
+		case x < 25:
+			return answer{r: "open"}
+		case x < 37:
+			return answer{r: "closed"}
+		case x < 42:
+			return answer{r: "lost"}
+		case x < 47:
+			return answer{r: "active"}
+		case x < 93:
 			return answer{r: "notfound"}
 		}
 		return answer{r: "err"}
@@ -112,16 +119,14 @@ func runFree(sid int, seed int64, wt time.Duration) ([]line, outcome) {
 			s.rec(line{"e": "fire"})
 			s.timerCh <- time.Now()
 		case "won", "lost":
-			if leased {
+			s.mu.Lock()
+			cb, cl := s.chainBid, s.chainLeased
+			s.mu.Unlock()
+			if leased || cl {
 				return
 			}
-			if k == "won" {
-				s.mu.Lock()
-				cb := s.chainBid
-				s.mu.Unlock()
-				if !cb {
-					return
-				}
+			if k == "won" && !cb {
+				return
 			}
 			leased = true
 			fallthrough
